@@ -396,6 +396,11 @@ func (s *Syncer) addPeer(p *Peer) error {
 
 	s.mu.Lock()
 	defer s.mu.Unlock()
+	if _, ok := s.peers[p.t.Addr]; ok {
+		// peers are keyed by their advertised address; a second peer with the
+		// same address would replace the first, which is then never closed
+		return fmt.Errorf("already connected to a peer with address %q", p.t.Addr)
+	}
 	if p.Inbound {
 		// allowConnect counted the peers before the handshake; count again now
 		// that the peer is actually added, otherwise simultaneous handshakes
@@ -465,7 +470,9 @@ func (s *Syncer) releaseInflight(key string) {
 func (s *Syncer) runPeer(p *Peer) {
 	defer func() {
 		s.mu.Lock()
-		delete(s.peers, p.t.Addr)
+		if s.peers[p.t.Addr] == p {
+			delete(s.peers, p.t.Addr)
+		}
 		s.mu.Unlock()
 
 		// notify goroutines of removed peer
@@ -960,6 +967,7 @@ func (s *Syncer) Connect(ctx context.Context, addr string) (*Peer, error) {
 		Inbound:  false,
 	}
 	if err := s.addPeer(p); err != nil {
+		t.Close()
 		return nil, fmt.Errorf("failed to add peer: %w", err)
 	}
 
